@@ -159,8 +159,27 @@ def check_C04(tier, seed):
                    extra_cov={"fate_vectors_enumerated_by_tlc": len(vecs), "generator_states": gst})
 
 
+def check_C05(tier, seed):
+    r = random.Random(seed * 7919 + 5)
+    quick = tier == "quick"
+    vecs, gst = V.gen("SeqGen.tla", "SeqGen_fates6.cfg", "C05")
+    n_vec = 700 if quick else 4096
+    n_rand = 900 if quick else 50000
+    scripts = [scen.flow_script(r, i, fate_vec=v) for i, v in enumerate(sample(vecs, n_vec, r))]
+    scripts += [scen.flow_script(r, len(scripts) + i) for i in range(n_rand)]
+    mcs = [("Credit.tla", "MC_Credit.cfg" if quick else "MC_Credit3.cfg")]
+    return generic("C05", tier, seed, mcs, scripts,
+                   [("flow", "FlowTrace.tla", "FlowTrace.cfg")],
+                   ["the peer's limits are decoded independently from the transport parameter bytes tapped at the crypto provider and from MAX_* frames in datagrams the harness delivered and FrameStats shows as processed",
+                    "write()/open() results are compared with the credit in the probe taken immediately before the call",
+                    "values above 2^30 are clamped (TLC integers); no run moves that much data",
+                    "0-RTT packets (remembered parameters) are outside this ledger, see C17"],
+                   extra_cov={"fate_vectors_enumerated_by_tlc": len(vecs), "generator_states": gst})
+
+
 REGISTRY = {
     "C01": check_C01,
+    "C05": check_C05,
     "C04": check_C04,
     "C07": check_C07,
     "C08": check_C08,
@@ -196,4 +215,8 @@ def replay_C04(scripts):
     return generic("C04", "quick", 0, [], scripts, [("auth", "AuthTrace.tla", "AuthTrace.cfg")], [], shards=1)
 
 
-REPLAY = {"C04": replay_C04, "C08": replay_C08, "C01": replay_C01, "C07": replay_C07}
+def replay_C05(scripts):
+    return generic("C05", "quick", 0, [], scripts, [("flow", "FlowTrace.tla", "FlowTrace.cfg")], [], shards=1)
+
+
+REPLAY = {"C05": replay_C05, "C04": replay_C04, "C08": replay_C08, "C01": replay_C01, "C07": replay_C07}
